@@ -192,6 +192,7 @@ def run_case(c):
             v.append(dict(kind="harness-trace-not-legal", event=e))
             break
     st = dict(reads_compared=compared, reads_of_written_locations=raw, writes=len(ref.wr_log), masked_writes=stats["masked_writes"],
+              cycles_with_two_commands=stats.get("second_cmd_in_cycle", 0),
               commands=len(ref.cmds), cycles=cycles, image_words=image_words, colbits=c["colbits"])
     for x in v:
         x["colbits"] = c["colbits"]
@@ -223,6 +224,7 @@ class LegalTraceGenerator:
         last_cas = -10
         last_wr = -10
         last_rd = -10
+        last_cas_b = {}      # bank -> cycle of its last CAS
         idle = [p.cs_n.eq(1) for p in dfi.phases] + [p.ras_n.eq(1) for p in dfi.phases] + [p.cas_n.eq(1) for p in dfi.phases] + \
                [p.we_n.eq(1) for p in dfi.phases]
 
@@ -249,6 +251,7 @@ class LegalTraceGenerator:
             stm = list(idle)
             ph = r.randrange(nph)
             choice = r.random()
+            cas_bank = None
             banks_open = list(open_row.keys())
             can_cas = cyc - last_cas >= 2
             if sweep is None and issued >= nops:
@@ -308,20 +311,39 @@ class LegalTraceGenerator:
                         stm += cmd(ph, 0, 1, 1, b, colbus(cw) | ((1 << 10) if ap else 0))
                         stm += [dfi.phases[ph].wrdata_en.eq(1)]
                         last_cas = last_wr = cyc
+                        cas_bank = b
+                        last_cas_b[b] = cyc
                         touched.append((b, open_row[b], cw))
                         issued += 1
                     elif not is_wr and cyc - last_wr > wl + 3:
                         stm += cmd(ph, 0, 1, 0, b, colbus(cw) | ((1 << 10) if ap else 0))
                         stm += [dfi.phases[ph].rddata_en.eq(1)]
                         last_cas = last_rd = cyc
+                        cas_bank = b
+                        last_cas_b[b] = cyc
                         issued += 1
                     else:
                         ap = False
                     if ap and (last_cas == cyc):
                         del open_row[b]
                         busy_until[b] = cyc + wl + 8     # write recovery + precharge before the bank may be activated again
-            for p in dfi.phases:
-                stm += [p.wrdata_en.eq(0), p.rddata_en.eq(0)] if not any(True for _ in ()) else []
+            if cas_bank is not None and nph > 1 and r.random() < 0.45:
+                # like the controller: a row command for another bank on another phase of the cycle that carries a CAS
+                ph2 = r.choice([x for x in range(nph) if x != ph])
+                can_pre = [x for x in open_row if x != cas_bank and cyc - last_cas_b.get(x, -100) > wl + 8 and cyc - last_act.get(x, -10) >= 3]
+                can_act = [x for x in range(nbanks) if x not in open_row and x != cas_bank and busy_until.get(x, 0) <= cyc]
+                if can_pre and (not can_act or r.random() < 0.5):
+                    b2 = r.choice(can_pre)
+                    stm += cmd(ph2, 1, 0, 1, b2, 0)
+                    del open_row[b2]
+                    self.stats["second_cmd_in_cycle"] = self.stats.get("second_cmd_in_cycle", 0) + 1
+                elif can_act:
+                    b2 = r.choice(can_act)
+                    rw2 = r.randrange(nrows)
+                    stm += cmd(ph2, 1, 0, 0, b2, rw2)
+                    open_row[b2] = rw2
+                    last_act[b2] = cyc
+                    self.stats["second_cmd_in_cycle"] = self.stats.get("second_cmd_in_cycle", 0) + 1
             # strobes: clear unless set above (order of statements: later wins)
             clr = []
             for p in dfi.phases:
